@@ -30,7 +30,10 @@ RULE = (
     "Session.get of absent/present identity, lazy load of an unloaded collection, refresh of an untouched object, bulk ORM UPDATE, Query.count, and the query-form dimension "
     "{Session.execute, scalars, scalar} x {ORM entity, Core Table, text()} x {count(*), id list} and legacy Query x {ORM entity, ORM column, Core table, Core column, "
     "func over Core column, Core table .count()} on the table a pending change is about. "
-    "Non-trivial: the control session (no autoflush, no flush) observes a different probe result or post-probe database than the autoflush session; "
+    "Non-trivial: the control session (no autoflush, no flush) observes a different probe result or post-probe database than the autoflush session. "
+    "Sub-check inherit_attr: a joined-inheritance object with column_property attributes on base and sub table (length of a column, correlated count), loaded by get / through the "
+    "base class / with attributes expired by name, 0-3 pending changes (own columns, related rows added / deleted), then 1-3 attribute reads: autoflush run vs the same program with "
+    "flush() before the reads, compared on the reads that emit a load; non-trivial = a sub-table read-only attribute is loaded while a change is pending; "
     "distinct = canonical JSON of the case"
 )
 ASSUMPTIONS = [
@@ -606,6 +609,142 @@ def _cases(draw):
     case["probe"] = [pk, draw(st.integers(0, 11)), draw(_v), draw(st.sampled_from(list(range(30))))]
     return case
 
+# --------------------------------------------------------------------------- attribute loads on a joined-inheritance subclass
+_INH = {}
+
+
+def _inh_family():
+    if not _INH:
+        from sqlalchemy import Column, ForeignKey, Integer, String, func, select
+        from sqlalchemy.orm import column_property, declarative_base
+
+        Base = declarative_base()
+
+        class IPerson(Base):
+            __tablename__ = "iperson"
+            id = Column(Integer, primary_key=True)
+            type = Column(String(20))
+            name = Column(String(50))
+            name_len = column_property(func.length(name))
+            __mapper_args__ = {"polymorphic_on": type, "polymorphic_identity": "p"}
+
+        class IEngineer(IPerson):
+            __tablename__ = "iengineer"
+            id = Column(Integer, ForeignKey("iperson.id"), primary_key=True)
+            info = Column(String(50))
+            info_len = column_property(func.length(info))
+            __mapper_args__ = {"polymorphic_identity": "e"}
+
+        class ITask(Base):
+            __tablename__ = "itask"
+            id = Column(Integer, primary_key=True)
+            engineer_id = Column(Integer, ForeignKey("iengineer.id"))
+
+        IEngineer.task_count = column_property(
+            select(func.count(ITask.id)).where(ITask.engineer_id == IEngineer.__table__.c.id).correlate(IEngineer.__table__).scalar_subquery()
+        )
+        _INH.update(Base=Base, P=IPerson, E=IEngineer, T=ITask)
+    return _INH
+
+
+_INH_ATTRS = ["info_len", "task_count", "name_len", "info", "name"]
+
+
+def _inh_run(case, flush_first):
+    from sqlalchemy import select
+    from sqlalchemy.orm import Session
+
+    from vf.sautil import mem_engine
+
+    fam = _inh_family()
+    P, E, T = fam["P"], fam["E"], fam["T"]
+    eng = mem_engine()
+    fam["Base"].metadata.create_all(eng)
+    try:
+        with Session(eng) as s0:
+            s0.add(E(id=1, name="ed", info="abc"))
+            for i in range(case["tasks"]):
+                s0.add(T(id=i + 1, engineer_id=1))
+            s0.commit()
+        out = []
+        with Session(eng, autoflush=True) as s:
+            obj = s.scalars(select(P)).one() if case["load"] == "base_query" else s.get(E, 1)
+            if case["load"] == "get_touch":
+                _ = [getattr(obj, a) for a in _INH_ATTRS]
+            for ch in case["changes"]:
+                if ch[0] == "info":
+                    obj.info = "x" * ch[1]
+                elif ch[0] == "name":
+                    obj.name = "n" * ch[1]
+                elif ch[0] == "add_task":
+                    s.add(T(id=10 + ch[1], engineer_id=1))
+                elif ch[0] == "del_task":
+                    t = s.get(T, ch[1] % max(case["tasks"], 1) + 1) if case["tasks"] else None
+                    if t is not None:
+                        s.delete(t)
+            names = [a for a in case["expire"] if a in ("info_len", "task_count", "name_len")]
+            if names:
+                s.expire(obj, names)
+            if flush_first:
+                s.flush()
+            from sqlalchemy import inspect
+
+            for a in case["read"]:
+                was_unloaded = a in inspect(obj).unloaded
+                out.append((a, getattr(obj, a), was_unloaded))
+            out.append(("rows", s.connection().exec_driver_sql("select info from iengineer").fetchall(), s.connection().exec_driver_sql("select count(*) from itask").scalar()))
+        return out
+    finally:
+        eng.dispose()
+
+
+def check_inherit_attr(case, ctx):
+    """autoflush run vs the same program with an explicit flush() in front of the reads: every attribute load - including the
+    single-table 'optimized get' that refreshes sub-table attributes of a joined-inheritance object - must see the pending changes"""
+    if not case.get("pinned") and len(case["read"]) > 1 and any(c[0] in ("info", "name") for c in case["changes"]):
+        # known finding: an UPDATE of the object's own row expires its read-only column_property attributes; when that UPDATE is the
+        # autoflush inside an attribute load, the load goes on with the attribute set chosen before the flush, and the other read-only
+        # attributes are afterwards neither loaded nor expired: they read None without SQL.  Only the first (loading) read is generated.
+        ctx.exclude("second read-only attribute read after an autoflush UPDATE inside an attribute load (known finding)")
+        case = dict(case, read=case["read"][:1])
+    auto = _inh_run(case, False)
+    ref = _inh_run(case, True)
+    sub_only = any(a in ("info_len", "task_count") for a in case["read"])
+    pending = bool(case["changes"])
+    ctx.note(case, sub_only and pending and (case["load"] == "base_query" or bool(case["expire"])), classes=["load=" + case["load"]] + sorted({c[0] for c in case["changes"]}) + ["read=" + a for a in case["read"]])
+    # only a read that emits a load autoflushes: an attribute still loaded in the autoflush run keeps its value by design, and without
+    # any load nothing is flushed either (the rows are then compared only from the first loading read on)
+    loads = [i for i, e in enumerate(auto[:-1]) if e[2]]
+    if not loads:
+        return
+    auto = [e[:2] for e in auto[loads[0]:-1] if e[2]] + [auto[-1]]
+    keep = {e[0] for e in auto[:-1]}
+    ref = [e[:2] for e in ref[loads[0]:-1] if e[0] in keep] + [ref[-1]]
+    if auto != ref:
+        bad = [a for a, b in zip(auto, ref) if a != b][0]
+        if bad[0] in ("name_len", "info_len", "task_count") and bad[1] is None and bad is not auto[0]:
+            raise Violation("C47/inherit_attr/readonly-attribute-lost-after-autoflush-in-load", f"{bad[0]} reads None without a load after the autoflush inside the "
+                            f"sub-table attribute load: {auto} vs {ref} for {case}", observed=auto, expected=ref)
+        raise Violation(f"C47/inherit_attr/{bad[0]}", f"autoflush run and explicit-flush run disagree: {auto} vs {ref} for {case}", observed=auto, expected=ref)
+
+
+@st.composite
+def _inh_cases(draw):
+    ch = st.one_of(
+        st.tuples(st.sampled_from(["info", "name"]), st.integers(0, 9)).map(list),
+        st.tuples(st.sampled_from(["add_task", "del_task"]), st.integers(0, 3)).map(list),
+    )
+    return {
+        "tasks": draw(st.integers(0, 2)),
+        "load": draw(st.sampled_from(["get", "get_touch", "get_touch", "base_query", "base_query"])),
+        "changes": draw(st.lists(ch, max_size=3, unique_by=lambda c: (c[0], c[1]))),
+        "expire": draw(st.lists(st.sampled_from(["info_len", "task_count", "name_len"]), max_size=3, unique=True)),
+        "read": draw(st.lists(st.sampled_from(_INH_ATTRS), min_size=1, max_size=3, unique=True)),
+    }
+
 
 def subs(tier):
-    return [Generated("twin", check, strategy=_cases(), quick=1000, thorough=40000)]
+    return [
+        Generated("twin", check, strategy=_cases(), quick=1000, thorough=40000),
+        Generated("inherit_attr", check_inherit_attr, strategy=_inh_cases(), quick=600, thorough=20000),
+    ]
